@@ -61,11 +61,13 @@ def rules_text(w, mark=None, extra=None):
     return rs
 
 
-def annot(rs, rng=None, note=None):
+def annot(rs, rng=None, note=None, holder=None):
     if not rs and not note:
         return ""
     if rng is not None and rng.random() < 0.5:
         rng.shuffle(rs)
+    if holder is not None:
+        holder.printed_rules = list(rs)
     s = " // {%s}" % ", ".join(rs) if rs else " //"
     if note:
         s += " - " + note if rs else " " + note
@@ -81,7 +83,7 @@ def print_schema(w, rng=None, indent=0, mark=None, comma=False, key=None, nl="\n
     """JSight text, one node per line"""
     pad = "  " * indent
     head = pad + (jkey(key) + ": " if key is not None else "")
-    a = annot(rules_text(w, mark), rng, w.note)
+    a = annot(rules_text(w, mark), rng, w.note, w)
     c = "," if comma else ""
     if w.kind in "SIFBN":
         return head + w.tok + c + a
@@ -275,6 +277,10 @@ def rand_rule_scalar(rng):
             lo = int(float(tok)) - 2
             rules.append(("min", str(lo)))
             viol.append(("min", "%d.5" % (lo - 3)))
+        if not rules and rng.random() < 0.5:
+            tok = tok + "0"
+            rules.append(("enum", "[%s, 1.0, 10, \"s\"]" % tok))
+            viol.append(("enum", "77.25"))
     elif kind == "S":
         r = rng.random()
         if r < 0.3:
@@ -351,3 +357,85 @@ def plain_json(w, compact=True):
     if w.kind == "O":
         return "{" + ",".join(json.dumps(k, ensure_ascii=False) + ":" + plain_json(x) for k, _, x in w.members) + "}"
     return "[" + ",".join(plain_json(x) for x in w.items) + "]"
+
+
+# ---------------- expected AST (C16) ----------------
+def rule_value_ast(v):
+    v = v.strip()
+    if v.startswith("["):
+        items = [rule_value_ast(x) for x in split_top(v[1:-1])]
+        return {"tt": "array", "src": 1, "items": items} if items else {"tt": "array", "src": 1}
+    if v.startswith('"'):
+        return {"tt": "string", "src": 1, "v": json.loads(v)}
+    if v in ("true", "false"):
+        return {"tt": "boolean", "src": 1, "v": v}
+    if v == "null":
+        return {"tt": "null", "src": 1, "v": v}
+    return {"tt": "number", "src": 1, "v": v}
+
+
+def split_top(s):
+    out, depth, cur, instr = [], 0, "", False
+    i = 0
+    while i < len(s):
+        ch = s[i]
+        if instr:
+            cur += ch
+            if ch == "\\":
+                cur += s[i + 1]; i += 1
+            elif ch == '"':
+                instr = False
+        elif ch == '"':
+            instr = True; cur += ch
+        elif ch in "[{":
+            depth += 1; cur += ch
+        elif ch in "]}":
+            depth -= 1; cur += ch
+        elif ch == "," and depth == 0:
+            out.append(cur); cur = ""
+        else:
+            cur += ch
+        i += 1
+    if cur.strip():
+        out.append(cur)
+    return out
+
+
+KIND_TT = {"S": "string", "I": "number", "F": "number", "B": "boolean", "N": "null", "O": "object", "A": "array"}
+KIND_ST = {"S": "string", "I": "integer", "F": "float", "B": "boolean", "N": "null", "O": "object", "A": "array"}
+
+
+def expected_ast(w, key=None):
+    """AST as harness/cmd/implrun/schemaops.go renders it (astJSON), for nodes printed by print_schema"""
+    n = {"tt": KIND_TT[w.kind]}
+    rules = []
+    names = {}
+    for r in getattr(w, "printed_rules", []):
+        name, _, val = r.partition(":")
+        rules.append([name.strip(), rule_value_ast(val)])
+        names[name.strip()] = val.strip()
+    if "enum" in names:
+        st = "enum"
+    elif "or" in names:
+        st = "mixed"
+    elif "type" in names:
+        st = json.loads(names["type"])
+    elif "precision" in names:
+        st = "decimal"
+    else:
+        st = KIND_ST[w.kind]
+    n["st"] = st
+    if key is not None:
+        n["key"] = key
+    if w.kind in "SIFBN":
+        n["v"] = json.loads(w.tok) if w.kind == "S" else w.tok
+        if n["v"] == "":
+            del n["v"]
+    if w.note:
+        n["c"] = w.note
+    if rules:
+        n["rules"] = rules
+    ch = [expected_ast(x, k) for k, _, x in w.members] + [expected_ast(x) for x in w.items]
+    if ch:
+        n["ch"] = ch
+    return n
